@@ -439,6 +439,8 @@ class Interp:
             if isinstance(p, ast.Constant):
                 parts.append(p.value)
             else:
+                if p.format_spec is not None or p.conversion not in (-1, ord("r"), ord("s")):
+                    raise Unsupported("f-string field with a format specification or an !a conversion")
                 v = self.ev(p.value, fr)
                 if p.conversion == ord("r"):
                     parts.append(self.lib.opaque_str(self, "repr"))
